@@ -139,6 +139,9 @@ def rule_of(t):
             a = t[2][0]
             if a[0] == 'call' and a[1].endswith('cob::Cob::empty'):
                 return [('unit',)]
+            if a[0] == 'call' and _is_from(a[1]) and len(a[2]) == 1 and strip(a[2][0]) == ('arg', 1):
+                # the component eval was called for, with the genus and dots it came with - not those of this state
+                return [('orig',)]
             if a[0] == 'call' and _is_from(a[1]) and a[2][0][0] == 'adt' and a[2][0][1] == COBCOMP:
                 d = dict(zip(a[2][0][3], a[2][0][4]))
                 dots = d['dots']
@@ -206,6 +209,20 @@ def check_part_eval(facts, rep):
     npts = 0
     arms = {}
     where = facts.bodies[EVAL].where()
+    # states that a recursive call can produce (as opposed to the state eval is entered with)
+    rec_targets = set()
+    for closed in (0, 1):
+        for g in range(4):
+            for x in range(5):
+                for y in range(5):
+                    args = {2: g, 3: x, 4: y}
+                    try:
+                        _, p0 = dt.decide_paths(dt.paths(EVAL), args, eval_atom(closed), what='eval', want_ret=False)
+                        for it in rule_of(p0.ret):
+                            if it[0] == 'rec':
+                                rec_targets.add((closed,) + tuple(dt.ev(z, args, eval_atom(closed)) for z in it[2:5]))
+                    except Stuck:
+                        pass
     for closed in (0, 1):
         for g in range(4):
             for x in range(5):
@@ -268,6 +285,13 @@ def check_part_eval(facts, rep):
                             rec['bad'] = rec['bad'] or ('R1', '%s: an open component is replaced by 0' % pt)
                         elif eps(lhs) != {}:
                             rec['bad'] = rec['bad'] or ('R1', '%s: the arm evaluates the closed component to 0, but eps(..) = %s' % (pt, pshow(eps(lhs))))
+                    elif kind == 'orig':
+                        if (closed, g, x, y) in rec_targets:
+                            rec['bad'] = rec['bad'] or ('R1', '%s: the arm returns the component eval was called for, with its original genus and dots, although this state is also reached by recursion (from a rewriting step): the surface still carries the handles / dots that the step just traded for h, t' % pt)
+                        if closed:
+                            rec['bad'] = rec['bad'] or ('R1', '%s: a closed component is returned unevaluated' % pt)
+                        if g > 0 or (x >= 1 and y >= 1) or x >= 2 or y >= 2:
+                            rec['bad'] = rec['bad'] or ('R1', '%s: reducible (genus / XY / X^2 / Y^2) but returned as it came' % pt)
                     elif kind == 'normal':
                         gen = dt.ev(rule[0][1], args, eval_atom(closed))
                         xx, yy = dt.ev(rule[0][2], args, eval_atom(closed)), dt.ev(rule[0][3], args, eval_atom(closed))
@@ -333,7 +357,7 @@ def check_predicates(facts, rep, dt):
                         return
                     pt = 'closed=%d g=%d x=%d y=%d' % (closed, g, x, y)
                     n4 += 1
-                    if bool(spe) != (first != 'normal'):
+                    if bool(spe) != (first not in ('normal', 'orig')):
                         bad4 = bad4 or '%s: should_part_eval = %s but eval\'s first step is the %s arm' % (pt, bool(spe), first)
                     if closed:
                         full = eps(V(g, x, y))
